@@ -8,7 +8,7 @@ from .common import close
 from .c01_oracle import coalescent_sfs, selection_equilibrium_sfs
 
 PROP = 'C01'
-GENERATED = ['Coeffs', 'Phi1D']
+GENERATED = ['Coeffs', 'Phi1D', 'Phi1DReal']
 NEEDS_BUILD = True
 DRIVER_MODULES = ['Integ']
 
